@@ -93,6 +93,32 @@ def c071(ctx):
                             "last owner: a surviving handle reads freed memory" % (self_ty, [t for _a, t in arc_fields][0], P.short(callee_skey(P.term_at(g, pt)))),
                             pt=pt if g is f else None)
     ctx.floor(R, "Drop impls that free", n, 4)
+    # a `strong_count == k` test with k >= 2 says `only the registry and I hold this`: the registry hands out further clones under its
+    # lock, so the test and the free it allows are one critical section of that lock -- otherwise an open can slip in between them
+    nreg = 0
+    for f in sorted(ctx.prog.fns.values(), key=lambda f: f.key):
+        if f.crate not in CRATES or not (f.impl_trait or "").endswith("ops::drop::Drop") or f.name != "drop":
+            continue
+        for p_ in P.call_points(f, r"alloc::sync::Arc.*::strong_count$"):
+            dest = P.term_at(f, p_)["dest"]["l"]
+            ks = []
+            for b in f.blocks:
+                for st in b.st:
+                    if st["s"] == "=" and st["rv"]["r"] == "bin" and st["rv"]["op"] in ("Eq", "Ne"):
+                        a_, b_ = st["rv"]["a"], st["rv"]["b"]
+                        if K.root_local(f, a_) == dest and b_.get("k") == "const" and isinstance(b_["c"].get("v"), int):
+                            ks.append(b_["c"]["v"])
+            if not ks or max(ks) < 2:
+                continue
+            nreg += 1
+            h = P.held(ctx.prog, f)
+            locks = h.locks_at(p_, must=True)
+            ctx.check(R, f, "count-test-under-registry-lock", bool(locks),
+                      "the `strong_count == %d` test is made with %s held, the lock under which the registry clones the Arc" % (max(ks), sorted(locks)),
+                      "%s tests `strong_count == %d` (the registry and this handle) without holding the registry's lock: an open can clone the Arc "
+                      "between the test and the close, and the handle it returns then refers to an unregistered descriptor" % (strip_generics(f.impl_self or ""), max(ks)),
+                      pt=p_)
+    ctx.floor(R, "Drop impls that test `only the registry and I`", nreg, 1)
     # the skiplist and its iterator are handles onto the same Arc'd head, and iter() clones that Arc
     sl = dict(adt_fields(ctx, "skipfree::SkipList"))
     it = dict(adt_fields(ctx, "skipfree::SkipListIterator"))
